@@ -231,4 +231,33 @@ theorem unrepaired_errdata_not_json :
       [100, 101, 115, 99, 114, 105, 98, 101, 32, 49]).2 = .notJson := by
   decide
 
+
+/-- **No lock is held while a thread is suspended** (the thread-side half of `lock_released`):
+    in every branch of `VisitState`, at every point where the thread waits for a continue
+    command it holds the debugger's lock zero times — so a suspended thread never blocks a
+    command — and it holds none when the call returns. -/
+theorem no_lock_held_while_suspended (i : VisitIn) :
+    (∀ h ∈ heldAtWaits (visitEvents false i) 0, h = 0) ∧ heldAfter (visitEvents false i) 0 = 0 := by
+  obtain ⟨k, t, sk, is, bp, bos⟩ := i
+  rcases is with _ | ⟨c, d⟩
+  · cases k <;> cases t <;> cases sk <;> cases bp <;> cases bos <;> decide
+  · cases c <;> cases d <;> cases k <;> cases t <;> cases sk <;> cases bp <;> cases bos <;> decide
+
+/-- non-vacuity: a thread stepping out that reaches an active break point does wait -/
+example : heldAtWaits (visitEvents false
+    { known := true, hasToken := true, sourceKnown := true, istate := some (.stepOut, true),
+      bpActive := true, breakOnStart := false }) 0 = [0] := by decide
+
+/-- **Releasing the read lock of the step branch by `defer` breaks this**: the thread then
+    waits at the break point with the read lock held (every later `break`, `rmbreak`, `inject`
+    … blocks, and with a writer pending so do `status`, `describe`, `cont`). -/
+theorem deferred_unlock_holds_lock_while_suspended :
+    heldAtWaits (visitEvents true
+      { known := true, hasToken := true, sourceKnown := true, istate := some (.stepOut, true),
+        bpActive := true, breakOnStart := false }) 0 = [1] := by decide
+
+/-- VisitState in the Go source contains no `defer` (regenerated on every run): its unlocks
+    are where the model has them. -/
+theorem visitstate_has_no_defer : Ecal.Gen.C16.visitStateDefers = 0 := by decide
+
 end Ecal.Props.C16
